@@ -25,6 +25,7 @@ type State struct {
 	epoch   string // non-empty after a havoc-everything: maps first read later get epoch constants
 	unknownWrites bool
 	cands []string // candidate integer terms for ground instantiation of hypotheses
+	loopEntry map[int]*State // heap view at the entry of each loop (by ordinal)
 }
 
 func (s *State) addCand(t string) {
@@ -56,6 +57,10 @@ func (s *State) clone() *State {
 		epoch:   s.epoch,
 		unknownWrites: s.unknownWrites,
 		cands: append([]string(nil), s.cands...),
+		loopEntry: map[int]*State{},
+	}
+	for k, v := range s.loopEntry {
+		n.loopEntry[k] = v
 	}
 	for k, v := range s.heap {
 		n.heap[k] = v
@@ -213,7 +218,11 @@ func (e *Env) embRef(structT types.Type, field string, obj string) string {
 	inv := fn + "!inv"
 	e.ctx.declFun(fn, []string{"Int"}, "Int")
 	e.ctx.declFun(inv, []string{"Int"}, "Int")
-	e.ctx.axiom("(forall ((x Int)) (! (and (= (" + inv + " (" + fn + " x)) x) (< (" + fn + " x) 0)) :pattern ((" + fn + " x))))")
+	if strings.Contains(obj, "q!") || strings.Contains(obj, "fr!r") || strings.Contains(obj, "r!") {
+		e.ctx.axiom("(forall ((x Int)) (! (and (= (" + inv + " (" + fn + " x)) x) (< (" + fn + " x) 0)) :pattern ((" + fn + " x))))")
+	} else {
+		e.ctx.axiom("(and (= (" + inv + " (" + fn + " " + obj + ")) " + obj + ") (< (" + fn + " " + obj + ") 0))")
+	}
 	return app(fn, obj)
 }
 
